@@ -2,11 +2,13 @@ package checks
 
 import (
 	"fmt"
+	"strings"
 	"time"
 
 	appsv1 "k8s.io/api/apps/v1"
 	corev1 "k8s.io/api/core/v1"
 	metav1 "k8s.io/apimachinery/pkg/apis/meta/v1"
+	"k8s.io/apimachinery/pkg/types"
 	"k8s.io/apimachinery/pkg/util/intstr"
 
 	edsv1 "github.com/DataDog/extendeddaemonset/api/v1alpha1"
@@ -84,16 +86,27 @@ func (p *Prep) addPod(node string, letter byte, st PodState, age time.Duration) 
 	rsName := p.RS[letter]
 	rs := p.C.ERS(p.NS, rsName)
 	pod := &corev1.Pod{ObjectMeta: metav1.ObjectMeta{Namespace: p.NS, Name: fmt.Sprintf("%s-p%04d", rsName, podSeq), CreationTimestamp: metav1.NewTime(now.Add(-age).Truncate(time.Second))}}
-	if letter != 0 && rs != nil {
-		tpl := rs.Spec.Template.DeepCopy()
+	if letter != 0 {
+		// the replica set of an older letter may already have been collected (all-zero status): its pods
+		// then still carry its name and hash, as pods of a deleted replica set do until the GC removes them
+		tplv := gen.LetterTemplate(letter)
+		tpl := &tplv
+		hash := oracle.TemplateHash(tpl)
+		uid := types.UID("gone-uid-" + string(letter))
+		if rs != nil {
+			tpl, hash, uid = rs.Spec.Template.DeepCopy(), rs.Spec.TemplateGeneration, rs.UID
+		} else {
+			rsName = p.Name + "-gone" + strings.ToLower(string(letter))
+			pod.Name = fmt.Sprintf("%s-p%04d", rsName, podSeq)
+		}
 		pod.Labels = map[string]string{oracle.LabelEDSName: p.Name, oracle.LabelRSName: rsName}
 		for k, v := range tpl.Labels {
 			pod.Labels[k] = v
 		}
-		pod.Annotations = map[string]string{oracle.AnnTemplateHash: rs.Spec.TemplateGeneration}
+		pod.Annotations = map[string]string{oracle.AnnTemplateHash: hash}
 		pod.Spec = tpl.Spec
 		ctrl := true
-		pod.OwnerReferences = []metav1.OwnerReference{{APIVersion: "datadoghq.com/v1alpha1", Kind: "ExtendedDaemonSetReplicaSet", Name: rsName, UID: rs.UID, Controller: &ctrl}}
+		pod.OwnerReferences = []metav1.OwnerReference{{APIVersion: "datadoghq.com/v1alpha1", Kind: "ExtendedDaemonSetReplicaSet", Name: rsName, UID: uid, Controller: &ctrl}}
 	} else {
 		pod.Name = fmt.Sprintf("oldds-p%04d", podSeq)
 		pod.Labels = map[string]string{"app": "old-agent"}
